@@ -401,7 +401,53 @@ fn panic_msg(e: Box<dyn std::any::Any + Send>) -> String {
     m.replace(['\n', ' '], "_")
 }
 
+/// watchdog state: (milliseconds since start at which the current op began, or 0 when idle; script line number)
+static OP_STARTED_MS: std::sync::atomic::AtomicU64 = std::sync::atomic::AtomicU64::new(0);
+static OP_LINE: std::sync::atomic::AtomicU64 = std::sync::atomic::AtomicU64::new(0);
+
+/// C01 "no hang": a single script line that takes longer than AVT_OP_TIMEOUT_MS (default 30 s) makes the
+/// harness report `HANG line=<n>` on stderr and exit with status 97 (threads cannot be cancelled).
+fn start_watchdog(case_ids: std::sync::Arc<std::sync::Mutex<String>>) {
+    use std::sync::atomic::Ordering;
+    let limit: u64 = std::env::var("AVT_OP_TIMEOUT_MS").ok().and_then(|v| v.parse().ok()).unwrap_or(30_000);
+    let t0 = std::time::Instant::now();
+    std::thread::spawn(move || loop {
+        std::thread::sleep(std::time::Duration::from_millis(250));
+        let started = OP_STARTED_MS.load(Ordering::Relaxed);
+        if started != 0 {
+            let now = t0.elapsed().as_millis() as u64 + 1;
+            if now > started && now - started > limit {
+                let case = case_ids.lock().map(|c| c.clone()).unwrap_or_default();
+                eprintln!("HANG case={} line={} after_ms={}", case, OP_LINE.load(Ordering::Relaxed), now - started);
+                std::process::exit(97);
+            }
+        }
+    });
+    WATCH_T0.with(|c| *c.borrow_mut() = Some(t0));
+}
+
+thread_local! {
+    static WATCH_T0: std::cell::RefCell<Option<std::time::Instant>> = std::cell::RefCell::new(None);
+}
+
+fn op_begin(line_no: u64) {
+    use std::sync::atomic::Ordering;
+    WATCH_T0.with(|c| {
+        if let Some(t0) = *c.borrow() {
+            OP_LINE.store(line_no, Ordering::Relaxed);
+            OP_STARTED_MS.store(t0.elapsed().as_millis() as u64 + 1, Ordering::Relaxed);
+        }
+    });
+}
+
+fn op_end() {
+    OP_STARTED_MS.store(0, std::sync::atomic::Ordering::Relaxed);
+}
+
 fn run_script(input: impl BufRead, out: &mut impl Write) {
+    let case_id = std::sync::Arc::new(std::sync::Mutex::new(String::new()));
+    start_watchdog(case_id.clone());
+    let mut line_no: u64 = 0;
     let mut vts: HashMap<usize, Vt> = HashMap::new();
     let mut dead: HashMap<usize, bool> = HashMap::new();
     let mut tcs: HashMap<usize, Option<TextCollector>> = HashMap::new();
@@ -414,8 +460,16 @@ fn run_script(input: impl BufRead, out: &mut impl Write) {
             continue;
         }
         writeln!(out, "{}", line).unwrap();
+        line_no += 1;
+        op_end();
+        op_begin(line_no);
         match toks[0] {
             "CASE" => {
+                if let Ok(mut c) = case_id.lock() {
+                    *c = toks.get(1).unwrap_or(&"?").to_string();
+                }
+                // keep what was produced so far even if a later case hangs
+                let _ = out.flush();
                 reset_prev_lines();
                 vts.clear();
                 dead.clear();
@@ -726,6 +780,7 @@ fn run_script(input: impl BufRead, out: &mut impl Write) {
             other => panic!("unknown script op {}", other),
         }
     }
+    op_end();
 }
 
 /// Parser transition table: for each state (entered through a canonical prefix with a given
